@@ -426,6 +426,19 @@ def corr_requests(run, flavour, cap, scale):
     return reqs
 
 
+def without_rx_rc(ans):
+    """the observation without the `o` tokens (a sercomm_drv_rx_char() call returned 0), runs of pulled octets merged again"""
+    out = []
+    for t in ans.split():
+        if t == "o":
+            continue
+        if t.startswith("p:") and out and out[-1].startswith("p:"):
+            out[-1] += t[2:]
+        else:
+            out.append(t)
+    return " ".join(out)
+
+
 def correspond(run, corr):
     build_harness(run)
     cp = caps(run)
@@ -450,7 +463,7 @@ def correspond(run, corr):
                 if len(corr.outside_samples) < 5:
                     corr.outside_samples.append({"request": l[:300], "impl": a[:200], "model": b})
                 continue
-            if a != b and " ".join(t for t in a.split() if t != "o") == " ".join(t for t in b.split() if t != "o"):
+            if a != b and without_rx_rc(a) == without_rx_rc(b):
                 # only the return value of sercomm_drv_rx_char() differs (token `o` = a call returned 0): what is delivered,
                 # pulled and in which order is the same - the property does not speak about that return value
                 corr.outside += 1
